@@ -124,6 +124,9 @@ def build_tree(key):
         fh.write(src)
     with open(os.path.join(vs, "ssema", "peek.go"), "w") as fh:
         fh.write("package ssema\n\n// PeekCur returns the current occupancy without yielding (harness use).\nfunc (s *Weighted) PeekCur() int64 { return s.cur }\n\n// PeekSize returns the capacity.\nfunc (s *Weighted) PeekSize() int64 { return s.size }\n\n// PeekWaiters returns the number of queued waiters.\nfunc (s *Weighted) PeekWaiters() int { return s.waiters.Len() }\n")
+    rc, o = run([GO, "mod", "edit", "-require=github.com/anishathalye/porcupine@v1.3.0"], cwd=repo)
+    if rc != 0:
+        die2("go mod edit failed: " + o)
     siminst = ensure_siminst()
     pkgs = ["github.com/sourcegraph/zoekt/internal/verifsim/ssema"] + ["github.com/sourcegraph/zoekt/" + p for p in INSTR_PKGS if os.path.isdir(os.path.join(repo, p))]
     rc, o = run([siminst, "-go", GO, "-entry", ",".join(ENTRY_PKGS), "-stats", os.path.join(root, "siminst-stats.json"), repo] + pkgs, cwd=repo)
